@@ -321,6 +321,50 @@ func VH_step_proxyproto() {
 	vapi.Assert(err == nil, "the PROXY-protocol handler failed on a valid header")
 }
 
+// VH_pp_allow (C12): a PROXY header is accepted only from peers inside the
+// allow list; everybody else is passed through untouched - same connection,
+// stream intact, addresses unchanged. An accepted header's addresses are what
+// later handlers see.
+type addrRec struct {
+	sameConn bool
+	remote   string
+	cx0      *layer4.Connection
+	conn     net.Conn
+}
+
+func (a *addrRec) Handle(cx *layer4.Connection, next layer4.Handler) error {
+	a.sameConn = cx == a.cx0
+	a.remote = cx.RemoteAddr().String()
+	a.conn = l4proxyprotocol.GetConn(cx)
+	return next.Handle(cx)
+}
+
+func VH_pp_allow() {
+	cx := startState(vapi.Param("MAXB", 200), vapi.Param("MAXD", 100))
+	ip := vapi.BytesN("ip", 4)
+	st.conn.Remote = &net.TCPAddr{IP: net.IP(ip), Port: 5555}
+	useHeader(1) // v2 PROXY TCP4 192.0.2.1:1000 -> 192.0.2.2:2000
+	pp := &l4proxyprotocol.Handler{Allow: []string{"10.0.0.0/8", "192.168.1.0/24", "192.168.1.7/32"}}
+	vapi.Assert(pp.Provision(caddy.Context{}) == nil, "provision")
+	l4proxyprotocol.VerifQuiet(pp)
+	allowed := ip[0] == 10 || (ip[0] == 192 && ip[1] == 168 && ip[2] == 1)
+	ar := &addrRec{cx0: cx}
+	if allowed {
+		st.base += hdrLen
+	}
+	err := chain(pp, ar, recNext{rec{tag: "after-proxy-protocol"}}).Handle(cx)
+	vapi.Assert(err == nil, "handler failed")
+	if allowed {
+		vapi.Cover("allowed peer")
+		vapi.Assert(!ar.sameConn, "an allowed peer's connection was not wrapped")
+		vapi.Assert(ar.remote == "192.0.2.1:1000", "later handlers do not see the source address the header declares")
+		vapi.Assert(ar.conn != nil && ar.conn.RemoteAddr().String() == "192.0.2.1:1000", "GetConn does not return the PROXY connection")
+	} else {
+		vapi.Cover("peer outside the allow list")
+		vapi.Assert(ar.sameConn, "a peer outside the allow list was not passed through untouched")
+	}
+}
+
 func VH_step_tee() {
 	cx := startState(vapi.Param("MAXB", 3000), 3000)
 	tee := l4tee.VerifNew(rec{tag: "branch", drain: true})
@@ -473,7 +517,7 @@ func init() {
 		"VH_core": VH_core, "VH_two_matchers": VH_two_matchers, "VH_wrap": VH_wrap, "VH_proxyproto": VH_proxyproto,
 		"VH_tee": VH_tee, "VH_throttle": VH_throttle, "VH_echo": VH_echo, "VH_read_step": VH_read_step,
 		"VH_step_rec": VH_step_rec, "VH_step_wrap": VH_step_wrap, "VH_step_proxyproto": VH_step_proxyproto, "VH_step_tee": VH_step_tee,
-		"VH_step_throttle": VH_step_throttle, "VH_step_echo": VH_step_echo, "VH_wrap_step": VH_wrap_step, "VH_prefetch_step": VH_prefetch_step, "VH_match_step": VH_match_step,
+		"VH_step_throttle": VH_step_throttle, "VH_step_echo": VH_step_echo, "VH_wrap_step": VH_wrap_step, "VH_pp_allow": VH_pp_allow, "VH_prefetch_step": VH_prefetch_step, "VH_match_step": VH_match_step,
 	} {
 		vapi.Register("c01."+name, f)
 	}
